@@ -76,6 +76,7 @@ CLAUSE_PROPERTY = {
     "TM_NearOne": "C12",
     "TM_ESS": "C12",
     "TM_Evidence": "C12",
+    "TM_CallsExact": "C13",
     "NoRaise": "C18",
     "RZ_UnfittedPredict": "C14",
     "RZ_SaveFailed": "C08",
@@ -355,6 +356,11 @@ class Recorder:
         core = r["core"]
         st = core.state
         self._ev = []
+        # (calls reported at entry, user-level evaluations counted when run() was entered): evaluations made while resuming, before
+        # this hook, are part of the run
+        mark = getattr(self, "_entry_mark", None)
+        self._calls_at_entry = (int(st.get_current("calls") or 0), self.evals if mark is None else mark)
+        self._entry_mark = None
         if not r["resumed"]:
             self._warm = []   # a resumed run keeps the supported fractions observed so far (any estimator pooled over the history is admissible)
         cfgo = core.config
@@ -697,7 +703,10 @@ class Recorder:
         _, rz = ref_logw_logz(logls, betas, logzs, 1.0)
         same = bool(np.isclose(evid, rz, rtol=RTOL, atol=RTOL))
         t = getattr(self, "_term", {"nearOne": False, "essPost": _R("ess", 0.0)})
-        self._emit("Terminate", evid=1, evidAt=1 if same else 2, **t)
+        base = getattr(self, "_calls_at_entry", None)
+        reported = int(st.get_current("calls") or 0)
+        seen = reported if base is None else int(base[0] + (self.evals - base[1]))
+        self._emit("Terminate", evid=1, evidAt=1 if same else 2, callsReported=reported, callsSeen=seen, **t)
         t.setdefault("_dbg", {}).update(evid=evid, evidRef=rz)
         if getattr(self, "expect_final_save", False):
             if not hasattr(self, "final_expected"):
